@@ -132,6 +132,7 @@ static int _enqueue_targeted_actions(Device * dev, int com, hostlist_t hl,
                                      int client_id, ArgList arglist);
 static char *_getregex_buf(cbuf_t b, xregex_t re, xregex_match_t xm);
 static bool _command_needs_device(Device * dev, hostlist_t hl);
+static bool _is_query_action(int com);
 static void _enqueue_ping(Device * dev, struct timeval *timeout);
 static void _enqueue_login(Device *dev);
 static void _disconnect(Device * dev);
@@ -444,9 +445,29 @@ static bool _command_needs_device(Device * dev, hostlist_t hl)
     return needed;
 }
 
+/* helper for dev_check_actions */
+static bool _all_plugs_targeted(Device * dev, hostlist_t hl)
+{
+    bool all = true;
+    PlugListIterator itr;
+    Plug *plug;
+
+    itr = pluglist_iterator_create(dev->plugs);
+    while ((plug = pluglist_next(itr))) {
+        if (plug->node == NULL || hostlist_find(hl, plug->node) == -1) {
+            all = false;
+            break;
+        }
+    }
+    pluglist_iterator_destroy(itr);
+    return all;
+}
+
 /*
  * Return true if all devices targeted by hostlist implement the
- * specified action.
+ * specified action, i.e. _enqueue_targeted_actions() will find a script
+ * variant it can use: the singlet or ranged script, or the _all script,
+ * which is only usable for queries or when every plug is targeted.
  */
 bool dev_check_actions(int com, hostlist_t hl)
 {
@@ -459,8 +480,10 @@ bool dev_check_actions(int com, hostlist_t hl)
     itr = list_iterator_create(dev_devices);
     while ((dev = list_next(itr))) {
         if (_command_needs_device(dev, hl)) {
-            if (!dev->scripts[com] && _get_all_script(dev, com) == -1
-                                   && _get_ranged_script(dev, com) == -1)  {
+            if (!dev->scripts[com] && _get_ranged_script(dev, com) == -1
+                    && (_get_all_script(dev, com) == -1
+                        || !(_is_query_action(com)
+                             || _all_plugs_targeted(dev, hl)))) {
                 valid = false;
                 break;
             }
